@@ -273,6 +273,12 @@ class Shape:
                       and isinstance(n.ctx, ast.Store)]
             if len(binds) == 1 and len(stores) == 1:
                 it = binds[0].value
+            elif not stores:
+                # a module-level constant tuple / list (bound exactly once at module level)
+                mods = [n for n in self.mod.body if isinstance(n, ast.Assign)
+                        and any(isinstance(t, ast.Name) and t.id == it.id for t in n.targets)]
+                if len(mods) == 1:
+                    it = mods[0].value
         if isinstance(it, (ast.Tuple, ast.List)) and all(isinstance(x, (ast.Constant, ast.Name)) for x in it.elts):
             return len(it.elts)
         return None
